@@ -87,7 +87,7 @@ class BLOB(Element):
     new_message_class = one_parts.OneBLOB
 
     def set_value_from_message(self, msg):
-        blob_value = values.BLOB.from_base64(msg.value, msg.format)
+        blob_value = values.BLOB.from_base64(msg.value or "", msg.format)
         assert (
             int(msg.size) == blob_value.size
         ), f"Blob size differs: {msg.size} declared vs {blob_value.size} measured"
